@@ -47,3 +47,60 @@ def call_twice(function, returns_awaitable, a, b):
     if returns_awaitable:
         r2 = await_(r2)
     return (r1, r2)
+
+
+class BorrowSpec:
+    """C07: a borrowed handle forwards next() to the underlying iterator until it is closed; closing it never
+    reaches the underlying iterator"""
+
+    def __init__(self, underlying):
+        self.underlying = underlying
+        self.closed = False
+
+    def __iter__(self):
+        return self
+
+    def __next__(self):
+        if self.closed:
+            raise StopIteration
+        return next(self.underlying)
+
+    def close(self):
+        self.closed = True
+
+
+def borrow(iterator):
+    return BorrowSpec(iterator)
+
+
+class ScopedSpec(BorrowSpec):
+    """C08: the handle of a scope cannot be closed from inside the block"""
+
+    def close(self):
+        pass
+
+    def _end(self):
+        self.closed = True
+
+
+class ScopeSpec:
+    def __init__(self, iterable):
+        self.iterator = iter(iterable)
+        self.handle = None
+
+    def __enter__(self):
+        self.handle = ScopedSpec(self.iterator)
+        return self.handle
+
+    def __exit__(self, typ, value, tb):
+        self.handle._end()
+        # the underlying iterator is closed here, exactly once, by the outermost scope only (checked on the
+        # source's close counter: a nested scope's iterator is the outer handle, whose close() does nothing)
+        close = getattr(self.iterator, "close", None)
+        if close is not None:
+            close()
+        return False
+
+
+def scoped_iter(iterable):
+    return ScopeSpec(iterable)
